@@ -6,6 +6,7 @@
 -/
 import Rws.HeaderList
 import RwsProofs.C11
+import RwsProofs.Lemmas.ServerHeaders
 namespace Rws.C10
 open Rws Rws.Gen Rws.HeaderList
 
@@ -122,6 +123,189 @@ theorem C10_header_list (env : Cors.Env) (now : Bytes) (req : Request) (hs : Lis
       have : Hdr.hVary = ascii "Vary" := C10_constants.2.2.2.2.2.2.2.2.2.2
       rw [← this]
       simp [fixedHeaders]
+
+/-! ## Part 2 — every response of the server -/
+
+/-- what the property demands of the header block on the wire -/
+def Required (hs : List Header) : Prop :=
+  (∀ p ∈ requiredExact, count p.1 hs = 1 ∧ (⟨p.1, p.2⟩ : Header) ∈ hs) ∧
+  (∀ n ∈ requiredNames, count n hs = 1) ∧
+  (∃ v, (⟨ascii "Vary", v⟩ : Header) ∈ hs ∧ ascii "Origin" ∈ items v)
+
+section part2
+open Rws.Server Rws.Controllers Rws.Static
+
+/-- names the controllers and the serialiser add after the header list -/
+private def addedNames : List Bytes :=
+  [Hdr.hLastModifiedUnixEpochNanos, Gen.respContentType, Gen.respContentRange, Gen.respContentLength]
+
+private theorem added_not_required :
+    ∀ n ∈ requiredExact.map (·.1) ++ requiredNames, n ∉ addedNames := by decide +kernel
+
+private theorem required_append (hs ex : List Header) (h : Required hs)
+    (hex : ∀ x ∈ ex, x.name ∈ addedNames) : Required (hs ++ ex) := by
+  obtain ⟨h1, h2, v, hv, hvo⟩ := h
+  have hz : ∀ n ∈ requiredExact.map (·.1) ++ requiredNames, count n ex = 0 := by
+    intro n hn
+    apply count_zero_of_not_mem
+    intro x hx he
+    exact added_not_required n hn (he ▸ hex x hx)
+  refine ⟨?_, ?_, v, List.mem_append_left _ hv, hvo⟩
+  · intro p hp
+    have hn : p.1 ∈ requiredExact.map (·.1) ++ requiredNames :=
+      List.mem_append_left _ (List.mem_map_of_mem (f := (·.1)) hp)
+    rw [count_append, hz _ hn]
+    exact ⟨by simpa using (h1 p hp).1, List.mem_append_left _ (h1 p hp).2⟩
+  · intro n hn
+    rw [count_append, hz _ (List.mem_append_right _ hn)]
+    simpa using h2 n hn
+
+private theorem framing_names (parts : List ContentRange) :
+    ∀ x ∈ Resp.framingHeaders parts, x.name ∈ addedNames := by
+  intro x hx
+  unfold Resp.framingHeaders at hx
+  split at hx
+  · simp at hx
+  · simp at hx; rcases hx with rfl | rfl | rfl <;> simp [addedNames]
+  · simp at hx; subst hx; simp [addedNames]
+
+private theorem required_of_list (env : Cors.Env) (now : Bytes) (req : Request) (hs : List Header)
+    (h : getHeaderList env now req = .ok hs) : Required hs := C10_header_list env now req hs h
+
+/-- **C10, controller chain** — whatever the request and whichever controller answers, on either
+    chain, the header block that is serialised (response headers, then the framing headers) carries
+    every required header exactly once. -/
+theorem C10_chain (ctx : Ctx) (req : Request) (legacy : Bool) (a : Answer)
+    (h : Controllers.execute ctx req legacy = .ok a) :
+    Required (a.response.headers ++ Resp.framingHeaders a.response.parts) := by
+  obtain ⟨hs, ex, hhs, hhead, hex⟩ := ServerHeaders.execute_headers ctx req legacy a h
+  rw [hhead, List.append_assoc]
+  apply required_append hs _ (required_of_list _ _ _ _ hhs)
+  intro x hx
+  rcases List.mem_append.mp hx with hx | hx
+  · rw [hex x hx]; simp [addedNames]
+  · exact framing_names _ x hx
+
+/-- **C10, error answers** — the 400 the server builds itself (unreadable, unparsable,
+    non-origin-form request; failing handler) carries them too, for every error text and method. -/
+theorem C10_bad_request (ctx : Ctx) (method : Bytes) (raw : Bytes)
+    (h : Server.badRequestResponse ctx method = .ok raw) :
+    ∃ resp q, raw = Resp.generateResponse resp q ∧
+      Required (resp.headers ++ Resp.framingHeaders resp.parts) := by
+  unfold Server.badRequestResponse at h
+  dsimp only at h
+  split at h
+  · cases h
+  · cases h
+  · rename_i hs hhs
+    injection h with h
+    refine ⟨_, _, h.symm, ?_⟩
+    apply required_append hs _ (required_of_list _ _ _ _ hhs)
+    exact framing_names _
+
+private theorem writeBufs_head (raw : Bytes) (script : List Transport.WCall) (x : Bytes)
+    (h : (Server.writeBufs raw script).head? = some x) : x = raw := by
+  cases script with
+  | nil => unfold Server.writeBufs at h; split at h <;> simp at h; exact h.symm
+  | cons c cs =>
+    unfold Server.writeBufs at h
+    split at h
+    · simp at h
+    · cases c with
+      | fail => simp at h
+      | acc n => cases n <;> simp at h <;> exact h.symm
+
+/-- **C10** — every response `Server::process` puts on the wire (real controller chain or a
+    failing handler; any tree, configuration, request bytes, buffer size, transport script,
+    error text) is the serialisation of a response whose header block carries
+    X-Content-Type-Options: nosniff, X-Frame-Options: SAMEORIGIN, the no-store Cache-Control,
+    Accept-Ranges: bytes, Accept-CH, Critical-CH and a Vary naming Origin, each exactly once. -/
+theorem C10_server (ctx : Ctx) (app : App) (happ : app ≠ .okEmpty) (alloc : Nat) (read : ReadScript)
+    (script : List Transport.WCall) (fl : Bool) (o : Outcome2)
+    (h : Server.process ctx app alloc read script fl = .ok o) (raw : Bytes)
+    (hraw : o.wire.writes.head? = some raw) :
+    ∃ resp q, raw = Resp.generateResponse resp q ∧
+      Required (resp.headers ++ Resp.framingHeaders resp.parts) := by
+  -- the four paths that answer 400 with `badRequestResponse`
+  have bad : ∀ (m r : Bytes), Server.badRequestResponse ctx m = .ok r →
+      (Server.send r script fl).wire.writes.head? = some raw →
+      ∃ resp q, raw = Resp.generateResponse resp q ∧ Required (resp.headers ++ Resp.framingHeaders resp.parts) := by
+    intro m r hb hraw
+    have := writeBufs_head r script raw (by simpa [Server.send] using hraw)
+    subst this
+    exact C10_bad_request ctx m _ hb
+  unfold Server.process at h
+  dsimp only at h
+  split at h
+  · split at h
+    · cases h
+    · cases h
+    · injection h with h; subst h; exact bad _ _ (by assumption) hraw
+  · split at h
+    · cases h
+    · split at h
+      · cases h
+      · cases h
+      · injection h with h; subst h; exact bad _ _ (by assumption) hraw
+    · split at h
+      · split at h
+        · cases h
+        · cases h
+        · injection h with h; subst h; exact bad _ _ (by assumption) hraw
+      · split at h
+        · cases h
+        · cases h
+        · split at h
+          · cases h
+          · cases h
+          · injection h with h; subst h; exact bad _ _ (by assumption) hraw
+        · rename_i a ha
+          injection h with h; subst h
+          have := writeBufs_head _ script raw (by simpa [Server.send] using hraw)
+          subst this
+          refine ⟨_, _, rfl, ?_⟩
+          cases app with
+          | okEmpty => exact absurd rfl happ
+          | fails => simp [Server.appExecute] at ha
+          | real =>
+            simp only [Server.appExecute] at ha
+            cases he : Controllers.execute ctx _ false with
+            | ok a' => rw [he] at ha; injection ha with ha; injection ha with ha; subst ha; exact C10_chain _ _ _ _ he
+            | err => rw [he] at ha; cases ha
+            | panic s => rw [he] at ha; cases ha
+
+/-- **C10, legacy entry point** — the same for `Server::process_request`. -/
+theorem C10_server_legacy (ctx : Ctx) (alloc : Nat) (read : ReadScript)
+    (script : List Transport.WCall) (fl : Bool) (raw : Bytes) (w : Wire) (reads : List Fs.Loc)
+    (h : Server.processRequest ctx alloc read script fl = .ok (raw, w, reads)) :
+    ∃ resp q, raw = Resp.generateResponse resp q ∧
+      Required (resp.headers ++ Resp.framingHeaders resp.parts) := by
+  unfold Server.processRequest at h
+  dsimp only at h
+  split at h
+  · split at h
+    · cases h
+    · cases h
+    · injection h with h; injection h with h1 h2; subst h1; exact C10_bad_request ctx _ _ (by assumption)
+  · split at h
+    · cases h
+    · split at h
+      · cases h
+      · cases h
+      · injection h with h; injection h with h1 h2; subst h1; exact C10_bad_request ctx _ _ (by assumption)
+    · split at h
+      · split at h
+        · cases h
+        · cases h
+        · injection h with h; injection h with h1 h2; subst h1; exact C10_bad_request ctx _ _ (by assumption)
+      · split at h
+        · cases h
+        · cases h
+        · rename_i a ha
+          injection h with h; injection h with h1 h2; subst h1
+          exact ⟨_, _, rfl, C10_chain _ _ _ _ ha⟩
+
+end part2
 
 /-- non-vacuity: a concrete environment and request for which the list is produced -/
 example : (match getHeaderList (Cors.envOf []) (ascii "1790516191431997108")
